@@ -6,6 +6,7 @@ spec/Selective.tla        generic selective element (Consume / PassUnselected / 
 spec/Trace_Selective.tla  validation of event logs recorded from the real elements
 lenaverif/selectivelib.py the ten elements with selected / unselected samples, audit hook, stub converters
 """
+import concurrent.futures
 import os
 import random
 import shutil
@@ -32,6 +33,9 @@ def event_kind(trace, k):
         prev = [e for e in trace[:k] if e["ev"] == "in"]
         return "value-not-yielded", (prev[-1]["w"] if prev else ev["w"])
     if ev["ev"] == "end":
+        if ev.get("raised"):
+            prev = [e for e in trace[:k] if e["ev"] == "in"]
+            return "run-raised:" + ev["raised"], (prev[-1]["w"] if prev else "")
         if ev.get("mutated"):
             return "unselected-mutated", ev["mutated"][0]
         if not ev.get("fsok", True):
@@ -94,15 +98,28 @@ def run(ctx):
                "reported by sys.addaudithook in the scratch directory, writes and process starts anywhere")
     ctx.assume("LaTeXToPDF runs a stub command (cp) through create_command, PDFToPNG a stand-in pdftoppm first on PATH")
     # ------------------------------------------------------------------ design level
-    ctx.mc("Selective", "Selective_%s.cfg" % tag, coverage=True, must_cover=SYNC_ACTIONS)
-    ctx.mc("Selective", "Selective_async_%s.cfg" % tag, coverage=True, must_cover=ASYNC_ACTIONS)
+    # the four model-checking runs are independent of the replay: they run beside it and are joined at the end
+    mcpool = concurrent.futures.ThreadPoolExecutor(max_workers=4)
+    mcruns = [mcpool.submit(ctx.mc, "Selective", cfg, coverage=True, must_cover=cover) for cfg, cover in (
+        ("Selective_%s.cfg" % tag, SYNC_ACTIONS), ("Selective_async_%s.cfg" % tag, ASYNC_ACTIONS),
+        ("Selective_rep.cfg", SYNC_ACTIONS),
+        ("Selective_cut.cfg", ASYNC_ACTIONS + ("EndFirstRun", "StartSecond", "Abort")))]
     recs = ctx.export("Selective", "Selective_%s_export.cfg" % tag, min_records=500)
+    recs_rep = ctx.export("Selective", "Selective_rep_export.cfg", min_records=100)
+    recs_cut = ctx.export("Selective", "Selective_cut_export.cfg", min_records=100)
     expected = {}
     maxfan = 0
-    for r in recs:
-        expected[(tuple(r["pat"]), tuple(r["fan"]))] = [(o["k"], o["i"]) for o in r["out"]]
+
+    def xkey(pat, fan, bobj, cut, kind):
+        return (tuple(bool(x) for x in pat), tuple(fan), tuple(bobj), cut, kind if cut else "end")
+    for r in recs + recs_rep + recs_cut:
+        expected[xkey(r["pat"], r["fan"], r["bobj"], r["cut"], r["kind"])] = [(o["k"], o["i"]) for o in r["out"]]
         maxfan = max([maxfan] + list(r["fan"]))
-    patterns = sorted(set(k[0] for k in expected), key=lambda p: (len(p), [not x for x in p]))
+    patterns = sorted(set(tuple(r["pat"]) for r in recs), key=lambda p: (len(p), [not x for x in p]))
+    # scenario kinds of the audit: the same unselected object twice; the flow fed in two runs of one element object
+    rep_scen = sorted(set((tuple(r["pat"]), tuple(r["bobj"])) for r in recs_rep
+                          if list(r["bobj"]) != list(range(1, len(r["bobj"]) + 1))))
+    cut_scen = sorted(set((tuple(r["pat"]), r["cut"], r["kind"]) for r in recs_cut if r["cut"]))
     ctx.sample({"spec_behaviour": recs[len(recs) // 2]})
 
     # ------------------------------------------------------------------ the real elements
@@ -119,9 +136,11 @@ def run(ctx):
         for spec in specs:
             anames_all = [n for n, _ in spec.A]
             bnames_all = [n for n, _ in spec.B]
-            todo = [(p, False) for p in patterns]
+            audit_cfg = spec.name in sl.AUDIT_CONFIGS
+            # quick tier: the configurations added by the audit get the short patterns only
+            todo = [(p, False) for p in patterns if ctx.thorough or not audit_cfg or len(p) <= 3]
             # C2S: longer random interleavings
-            for _ in range(40 if ctx.thorough else 6):
+            for _ in range(40 if ctx.thorough else (2 if audit_cfg else 6)):
                 na = rnd.randint(1, 3 if spec.is_async else 6)
                 nb = rnd.randint(1, 8)
                 p = [True] * na + [False] * nb
@@ -130,10 +149,24 @@ def run(ctx):
             # every unselected sample once right BEFORE all selected samples (an unselected value whose context
             # carries an option key must not influence later selected values that lack the key), and once between them
             lead = [((False,) + (True,) * min(3, len(anames_all)), b) for b in bnames_all]
-            lead += [((True, False) + (True,) * (min(3, len(anames_all)) - 1), b) for b in bnames_all if len(anames_all) > 1]
+            if ctx.thorough:
+                lead += [((True, False) + (True,) * (min(3, len(anames_all)) - 1), b) for b in bnames_all
+                         if len(anames_all) > 1]
+            else:
+                # quick: the second placement only for the samples whose context carries option keys / names
+                lead += [((True, False) + (True,) * (min(3, len(anames_all)) - 1), b) for b in bnames_all
+                         if len(anames_all) > 1 and not audit_cfg and any(t in b for t in (
+                             "duplicate", "changed", "template", "value_key", "variable_key", "output_keys", "already"))]
             todo = [(p, False, None) for p, _ in todo if not _] + [(p, False, b) for p, b in lead] + \
                    [(p, True, None) for p, r in todo if r]
-            for pi, (pat, is_random, forced_b) in enumerate(todo):
+            todo = [t + (None, 0, "end") for t in todo]
+            si = specs.index(spec)
+            nrep = len(rep_scen) if ctx.thorough else (3 if audit_cfg else 6)
+            ncut = len(cut_scen) if ctx.thorough else (4 if audit_cfg else 10)
+            # a deterministic slice that differs between configurations (together they cover every exported scenario)
+            todo += [(p, False, None, bo, 0, "end") for p, bo in (rep_scen[si::max(1, len(rep_scen) // nrep)])[:nrep]]
+            todo += [(p, False, None, None, c, kd) for p, c, kd in (cut_scen[si::max(1, len(cut_scen) // ncut)])[:ncut]]
+            for pi, (pat, is_random, forced_b, bobj, cut, ckind) in enumerate(todo):
                 na, nb = sum(1 for x in pat if x), sum(1 for x in pat if not x)
                 if spec.is_async and na > len(anames_all):
                     continue        # converter results are attributed by file name: no duplicates
@@ -142,9 +175,12 @@ def run(ctx):
                 if forced_b is not None:
                     anames = anames_all[:na]
                     bnames = [forced_b]
-                sc = sl.Scenario(spec, pat, anames, bnames, os.path.join(scratch, spec.name))
+                if bobj is not None:
+                    for k, first in enumerate(bobj):
+                        bnames[k] = bnames[first - 1]
+                sc = sl.Scenario(spec, pat, anames, bnames, os.path.join(scratch, spec.name), bobj=bobj, cut=cut, kind=ckind)
                 trace = sc.run()
-                ctx.case([spec.name, list(pat), anames, bnames], nontrivial=na > 0 and nb > 0)
+                ctx.case([spec.name, list(pat), anames, bnames, bobj, cut, ckind], nontrivial=na > 0 and nb > 0)
                 for kind, sample, what in sc.problems:
                     ctx.violation("%s:%s:%s:%s" % (spec.name, kind, what.split("(")[0], sample),
                                   {"element": spec.name, "pattern": list(pat), "selected": anames,
@@ -155,7 +191,7 @@ def run(ctx):
                     used_b.setdefault(spec.name, set()).add(b)
                 scens.append((spec.name, sc, trace))
                 # S2C: the layout TLC exports for this interleaving and fan-out (synchronous elements)
-                key = (tuple(bool(x) for x in pat), tuple(sc.fan))
+                key = xkey(pat, sc.fan, sc.bobj, cut, ckind)
                 if not spec.is_async and key in expected:
                     obs = [(e["k"], e["i"]) for e in trace if e["ev"] == "out"]
                     exp = expected[key]
@@ -171,6 +207,7 @@ def run(ctx):
                             ctx.violation("%s:layout:%s:%s" % (spec.name, kind, w),
                                           {"element": spec.name, "pattern": list(pat), "selected": anames,
                                            "unselected": bnames, "fan": sc.fan, "expected": exp, "observed": obs,
+                                           "same_object_at": sc.bobj, "second_run_after": cut, "first_run": ckind,
                                            "legend": "u = the i-th unselected value itself, m = that object with "
                                                      "changed content, s = i-th reference result (0: none)"})
             missing = set(bnames_all) - used_b.get(spec.name, set())
@@ -194,6 +231,11 @@ def run(ctx):
     if any(corrupt(r) for r in demo[:60]):
         ctx.binding_demo("Trace_Selective", "Trace_Selective.cfg", demo, corrupt, limit=60)
     shutil.rmtree(scratch, ignore_errors=True)
+    try:
+        for f in mcruns:
+            f.result()
+    finally:
+        mcpool.shutdown(wait=True)
     return ctx.finish(
         rule="S2C: every interleaving pattern of the bounded Selective model (|A|,|B| <= %d) for each of the eleven "
              "element configurations, unselected samples rotated so that each is used; the layout of the real output "
